@@ -24,6 +24,33 @@ Theorem C13_claim_consistent : lk_reports lk_gen_cfg = lk_compiled lk_gen_cfg.
 Proof. reflexivity. Qed.
 Print Assumptions C13_claim_consistent.
 
+(* the same tree with COAP_THREAD_RECURSIVE_CHECK=1 (enabled by default by the autoconf build,
+   off in the cmake build): the other variant of every lock macro follows the discipline too ... *)
+Theorem C13_config_ok_recursive_check : lk_cfg_wf lk_gen_cfg_rc = true.
+Proof. reflexivity. Qed.
+Print Assumptions C13_config_ok_recursive_check.
+
+(* ... and its variant of coap_lock_lock_func (trylock first) takes, in every reachable state and
+   for every caller, the decision of the variant the theorems below are stated for *)
+Theorem C13_recursive_check_same_decisions : forall (progs : list (list lk_op)),
+  Forall (fun p => lk_wfprog p = true) progs -> forall s t,
+  lk_reach (lk_init progs) s -> lk_lock_func_rc t (lk_l s) = lk_lock_func t (lk_l s).
+Proof. exact lk_rc_same_reachable. Qed.
+Print Assumptions C13_recursive_check_same_decisions.
+
+(* the configuration produced by the repository's second build system (./autogen.sh &&
+   ./configure with its defaults: thread safety and the recursive-lock check both on) *)
+Theorem C13_config_ok_autoconf : lk_cfg_wf lk_gen_cfg_autoconf = true.
+Proof. reflexivity. Qed.
+Print Assumptions C13_config_ok_autoconf.
+
+Theorem C13_claim_consistent_all_configurations :
+  lk_reports lk_gen_cfg_rc = lk_compiled lk_gen_cfg_rc /\
+  lk_reports lk_gen_cfg_autoconf = lk_compiled lk_gen_cfg_autoconf /\
+  lk_flat lk_gen_cfg_rc = lk_flat lk_gen_cfg /\ lk_flat lk_gen_cfg_autoconf = lk_flat lk_gen_cfg.
+Proof. repeat split; reflexivity. Qed.
+Print Assumptions C13_claim_consistent_all_configurations.
+
 (* library state is accessed by one thread at a time *)
 Theorem C13_mutex : forall (progs : list lk_calls) s i j,
   lk_reach (lk_init (map (lk_flat lk_gen_cfg) progs)) s ->
